@@ -1,4 +1,5 @@
 """Def-use helpers on one MIR body: uses, forward taint, backward origin tracing."""
+import re
 from .facts import op_place, op_const, const_int
 
 
@@ -545,3 +546,58 @@ def describe_rvalue(body, r, names=True):
     if k == "agg":
         return "%s{%s}" % (r.get("vname") or r.get("ak"), ", ".join(d(o) for o in r["ops"]))
     return k
+
+
+# ---- sums in canonical form ---------------------------------------------------------------------------------------
+def _split_top(s):
+    """Split at top-level commas."""
+    out, depth, cur = [], 0, ""
+    for ch in s:
+        if ch in "([{<":
+            depth += 1
+        elif ch in ")]}>":
+            depth -= 1
+        if ch == "," and depth == 0:
+            out.append(cur.strip()); cur = ""
+        else:
+            cur += ch
+    if cur.strip():
+        out.append(cur.strip())
+    return out
+
+
+def canon_sums(d):
+    """Descriptor with every tree of additions written as Sum(t1, t2, ..., Kc): terms sorted, constants folded, the
+    checked-arithmetic `.0` dropped.  `pos + 8 + len`, `pos + len + 8` and `(pos + 8) + len` become the same text."""
+    out, i, n = "", 0, len(d)
+    while i < n:
+        if d.startswith("Add(", i) and (i == 0 or not (d[i - 1].isalnum() or d[i - 1] == "_")):
+            j, depth = i + 4, 1
+            while j < n and depth:
+                if d[j] in "([{":
+                    depth += 1
+                elif d[j] in ")]}":
+                    depth -= 1
+                j += 1
+            inner = d[i + 4:j - 1]
+            if d.startswith(".0", j):
+                j += 2
+            parts = [canon_sums(x) for x in _split_top(inner)]
+            terms, c = [], 0
+            for p in parts:
+                sub = _split_top(p[4:-1]) if p.startswith("Sum(") and p.endswith(")") else [p]
+                for t in sub:
+                    m = re.match(r"^K(-?\d+)$", t)
+                    if m:
+                        c += int(m.group(1))
+                    else:
+                        terms.append(t)
+            terms.sort()
+            if c:
+                terms.append("K%d" % c)
+            out += terms[0] if len(terms) == 1 else "Sum(%s)" % ", ".join(terms)
+            i = j
+        else:
+            out += d[i]
+            i += 1
+    return out
